@@ -1002,7 +1002,43 @@ impl<'a, 'b> Gen<'a, 'b> {
         let n = 1 + self.ch.below(self.cfg.max_forms);
         let depth = self.cfg.max_depth;
         for _ in 0..n {
-            match self.ch.weighted(&[3, 4, 2, 6, 1, 1, 1, 1]) {
+            match self.ch.weighted(&[3, 4, 2, 6, 1, 1, 1, 1, 1, 1]) {
+                8 => {
+                    // data that are themselves quotations: ''a is the list (quote a), also inside lists and vector literals
+                    let qd = |d: Datum| Datum::List(vec![Datum::Sym("quote".into()), d], None);
+                    let a = Datum::Sym(self.ch.pick(SYMS).to_string());
+                    let e = match self.ch.below(6) {
+                        0 => Expr::Quote(qd(a)),
+                        1 => app("car", vec![Expr::Quote(qd(a))]),
+                        2 => app("cadr", vec![Expr::Quote(qd(Datum::Int(self.ch.range(0, 9) as i32)))]),
+                        3 => app("vector-ref", vec![Expr::VecLit(vec![Datum::Int(1), qd(a)]), Expr::Int(1)]),
+                        4 => app("car", vec![Expr::Quote(Datum::List(vec![qd(a), Datum::Int(2)], None))]),
+                        _ => app("list", vec![Expr::Quote(qd(qd(a))), app("pair?", vec![Expr::Quote(qd(Datum::List(vec![], None)))])]),
+                    };
+                    forms.push(Form::Expr(e));
+                }
+                9 => {
+                    // two closures of one lambda over different bindings; one hands over to the other in tail position
+                    let k = forms.len();
+                    let (mk, r1, r2) = (format!("mk-relay{}", k), format!("relay-a{}", k), format!("relay-b{}", k));
+                    let (a, b) = (self.ch.range(0, 9) as i32, self.ch.range(10, 19) as i32);
+                    let body = Expr::If(
+                        Box::new(var("other")),
+                        Box::new(Expr::App(Box::new(var("other")), vec![app("+", vec![var("x"), Expr::Int(1)]), Expr::Bool(false)])),
+                        Some(Box::new(app("list", vec![var("x"), var("n")]))),
+                    );
+                    forms.push(Form::Define(Def {
+                        name: mk.clone(),
+                        value: Expr::Lambda(Formals { fixed: vec!["n".into()], rest: None }, body1(Expr::Lambda(Formals { fixed: vec!["x".into(), "other".into()], rest: None }, body1(body)))),
+                        sugar: self.ch.chance(1, 2),
+                    }));
+                    forms.push(Form::Define(Def { name: r1.clone(), value: app(&mk, vec![Expr::Int(a)]), sugar: false }));
+                    forms.push(Form::Define(Def { name: r2.clone(), value: app(&mk, vec![Expr::Int(b)]), sugar: false }));
+                    forms.push(Form::Expr(app(&r1, vec![Expr::Int(1), var(&r2)])));
+                    forms.push(Form::Expr(app(&r2, vec![Expr::Int(1), var(&r1)])));
+                    forms.push(Form::Expr(app(&r1, vec![Expr::Int(5), Expr::Bool(false)])));
+                    self.labels.closures_escaping += 1;
+                }
                 7 => {
                     // closures leave a body with internal definitions inside a list (the body ends in a variable, not in
                     // a call); they are called after the body has returned
